@@ -449,11 +449,15 @@ func (db *LeveldbPermanent) loadLastSuffrageProof() error {
 	if err := pst.Iter(
 		leveldbutil.BytesPrefix(leveldbKeySuffrageProof[:]),
 		func(_, b []byte) (bool, error) {
+			var enchint string
 			var err error
 
-			meta, err = ReadDecodeOneHeaderFrame(db.encs, b, &proof)
+			enchint, meta, body, err = ReadOneHeaderFrame(b)
+			if err != nil {
+				return false, err
+			}
 
-			return false, err
+			return false, DecodeFrame(db.encs, enchint, body, &proof)
 		},
 		false,
 	); err != nil {
